@@ -298,6 +298,7 @@ Fixpoint reqs_of (n : nat) (evs : list (tev value rmask)) : list (sreq rmask nat
   | TUpdate name _ :: r => QUpdate name n :: reqs_of (S n) r
   | TOpen name k uo :: r => QPull name k uo :: reqs_of n r
   | TCancel i :: r => QCancel i :: reqs_of n r
+  | TStall i :: r => QStall i :: reqs_of n r
   end.
 
 Definition model_run (vr : variant) (server : string) (info : srvinfo) (init : value) (evs : list (tev value rmask))
@@ -319,6 +320,7 @@ Definition resp_matches (p : sresp value) (e : tev value rmask) : bool :=
   | PUpdate r, TUpdate _ r' => upd_eqb r r'
   | POpened, TOpen _ _ _ => true
   | PCancelled, TCancel _ => true
+  | PStalled, TStall _ => true
   | _, _ => false
   end.
 
@@ -390,6 +392,7 @@ Fixpoint since_a (i : nat) (k : option rmask) (aevs : list (tev value rmask * na
   | (TUpdate name (inl v), n) :: r =>
       if t_routed dev_names name then let '(l, c) := since_a i k r in ((pm ref_proj k v, n) :: l, c) else since_a i k r
   | (TCancel j, _) :: r => if Nat.eqb j i then ([], true) else since_a i k r
+  | (TStall j, _) :: r => if Nat.eqb j i then ([], cancelled_later i (map fst r)) else since_a i k r
   | _ :: r => since_a i k r
   end.
 
